@@ -60,8 +60,11 @@ def snap_var(v):
     fill = None
     if masked:
         try:
-            fill = arr.fill_value
-            fill = fill.item() if hasattr(fill, 'item') else fill
+            fill = np.asarray(arr.fill_value)
+            if fill.dtype.kind in 'fiub' and data.dtype.kind in 'fiub':
+                with np.errstate(all='ignore'):
+                    fill = fill.astype(data.dtype)   # numpy casts fill values lazily
+            fill = fill.item()
         except Exception:
             fill = None
     attrs = _attrs_of(v)
@@ -122,3 +125,98 @@ def wellformed(f):
         except Exception:
             out.append('global attribute %s listed but not retrievable' % a)
     return out
+
+
+def deep_hash(f):
+    """Hash of everything observable about a file INCLUDING raw buffer bytes
+    under masked cells, fill values, attribute values, variable order (C05)."""
+    import hashlib
+    from .ref.rfile import _attr_canon
+    h = hashlib.blake2b(digest_size=16)
+
+    def up(o):
+        h.update(repr(o).encode())
+        h.update(b'\x1e')
+    up(type(f).__name__)
+    for k, d in f.dimensions.items():
+        up(('d', k, len(d), bool(d.isunlimited())))
+    for k in list(f.variables.keys()):
+        v = f.variables[k]
+        arr = v[...]
+        data = np.ascontiguousarray(np.ma.getdata(arr))
+        mask = np.ascontiguousarray(np.ma.getmaskarray(arr))
+        up(('v', k, tuple(getattr(v, 'dimensions', ())), str(data.dtype), data.shape,
+            isinstance(arr, np.ma.MaskedArray)))
+        h.update(data.tobytes())
+        h.update(mask.tobytes())
+        if isinstance(arr, np.ma.MaskedArray):
+            try:
+                fv = arr.fill_value      # numpy initialises/casts this lazily: compare by value
+                fa = np.asarray(fv)
+                if fa.dtype.kind in 'fiub' and data.dtype.kind in 'fiub':
+                    with np.errstate(all='ignore'):
+                        fa = fa.astype(data.dtype)
+                up(('fill', fa.dtype.str, fa.tobytes()))
+            except Exception:
+                pass
+        if hasattr(v, 'ncattrs'):
+            for a in v.ncattrs():
+                up(('va', a, _attr_canon(getattr(v, a))))
+    for a in f.ncattrs():
+        up(('ga', a, _attr_canon(getattr(f, a))))
+    try:
+        up(tuple(sorted(f.getCoords())))
+    except Exception:
+        pass
+    return h.digest()
+
+
+def deep_diff(f, before_snap):
+    """human-readable difference between file f now and an RFile snapshot"""
+    from .ref import rfile
+    now = snap(f)
+    d = rfile.file_diff(now, before_snap, fill=True, order=True, dimorder=True)
+    return d
+
+
+def scribble(f):
+    """overwrite every variable of file f (data and mask) with sentinels"""
+    n = 0
+    for k in list(f.variables.keys()):
+        v = f.variables[k]
+        try:
+            if v.dtype.kind in 'SU':
+                v[...] = b'#'
+            else:
+                v[...] = np.array(-12345).astype(v.dtype)
+            if isinstance(v, np.ma.MaskedArray):
+                v[...] = np.ma.masked
+            n += 1
+        except Exception:
+            pass
+    return n
+
+
+class _NoStamps(object):
+    """view of a file hiding the IOAPI wall-clock attributes"""
+    STAMPS = ('CDATE', 'CTIME', 'WDATE', 'WTIME')
+
+    def __init__(self, f):
+        self._f = f
+        self.dimensions = f.dimensions
+        self.variables = f.variables
+
+    def ncattrs(self):
+        return [a for a in self._f.ncattrs() if a not in self.STAMPS]
+
+    def getCoords(self):
+        return self._f.getCoords()
+
+    def __getattr__(self, k):
+        return getattr(self._f, k)
+
+
+def deep_hash_nostamps(f):
+    w = _NoStamps(f)
+    import hashlib
+    return hashlib.blake2b(type(f).__name__.encode() + deep_hash(w), digest_size=16).digest()
